@@ -13,7 +13,16 @@ ID = "C06"
 PROPS_FILES = ["Gama/Props/C06.lean"]
 LEAN_TARGETS = ["Gama.Props.C06"]
 DRIVERS = ["drv_cogo"]
-RULE = ("(a'') AcordIntersection::execute as a whole on small in-memory networks (2..4 known points, 1..3 points without xy, "
+RULE = ("(a3) the whole of Acord2::execute (the real do-while, all strategy objects of the constructor) on in-memory networks "
+        "of 2..4 given points and 2..6 construction stages, each tying a new point or a missing height to points that are "
+        "or will be known by a construction of one strategy (azimuth + distance, levelling lines - also such whose first "
+        "known height comes from a later strategy -, zenith angle + distance either way, vectors, two / three distances, "
+        "directions from oriented stations, resection; rarely direction + distance = AcordPolar), exact data, all axes / "
+        "angle senses: sizes of missing_xy_ / missing_z_ at the start of every turn, number of turns and every point are "
+        "compared with Acord.execute of Gama/Model/Acord2.lean over the five modelled strategies; networks in which a "
+        "strategy without a model acted (AcordPolar / AcordTraverse / AcordWeakChecks changed a point, a candidate list or "
+        "a missing set; solve_insertion published a point) are outside the model, counted, and left to the oracle; "
+        "(a'') AcordIntersection::execute as a whole on small in-memory networks (2..4 known points, 1..3 points without xy, "
         "each tied by one of: two outer bearings, bearing + distance, three / two distances, resection from directions or "
         "angles at the new point, direction + angle, outer angle + distance, azimuth from a known point, azimuth observed AT "
         "the new point (rule of fix 78a600d), slope distance with zenith angle / with both heights; later points tied to "
@@ -23,13 +32,16 @@ RULE = ("(a'') AcordIntersection::execute as a whole on small in-memory networks
         "that are 2D, 3D, height-only or undefined; all 8 axes-xy x 2 angle senses; unequal non-zero from_dh/to_dh; exact (80 %) "
         "or perturbed observations) on which ONE execute() of AcordAzimuth / AcordHdiff / AcordVector / AcordZderived "
         "(+ get_medians_z) is run once or twice; distinct by op line, non-trivial = at least one coordinate defined afterwards; "
-        "(a) primitive calls: random base points / true point X in a 1 km square, exact observations derived from X "
+        "+ AcordHdiff with heights published by another strategy between two executions (in 2 of 3 of these no height of the "
+        "line is known at the first execution), completed() after every execution; (a) primitive calls: random base points / true point X in a 1 km square, exact observations derived from X "
         "(70 %) or random inconsistent data (30 %), small-angle limits 0.15 / 0.1; distinct by op line, non-trivial = "
-        "at least one solution returned; (b) single adjustment step on generated networks (refine_approx_coordinates "
-        "and every observation's stopping-test misclosure); (c) end-to-end: constructive 1D/2D/3D networks "
+        "at least one solution returned; (b) single adjustment step on generated networks and on PURE trilateration networks with approximate coordinates off "
+        "by 0.1..0.5 m, where every misclosure of the stopping test is <= 0 (refine_approx_coordinates, every "
+        "observation's stopping-test misclosure, the flag of TestLinearization); (c) end-to-end: constructive 1D/2D/3D networks "
         "(polar, forward / distance intersection, resection, traverse, azimuth, vectors, levelling, mixes; special "
         "circle orientations near 0/100/200/300/400 gon; with and without from_dh/to_dh), variants supplied / "
-        "perturbed 1 mm..5 m / omitted / omitted+further observations, all four algorithms; distinct by gkf text, "
+        "perturbed 1 mm..5 m / omitted / omitted+further observations, pure trilateration with approximate coordinates off by "
+        "0.1..0.5 m (true coordinates to 0.001 mm), all four algorithms; distinct by gkf text, "
         "non-trivial = at least one adjusted point")
 LEVEL_TEXT = ("partial: Lean 4 theorems over R about executable models of the approximate-coordinate building blocks "
               "(all of g2d_cogo: Distance_distance returns exactly the two mirror solutions; Direction_direction, "
@@ -55,18 +67,27 @@ LEVEL_TEXT = ("partial: Lean 4 theorems over R about executable models of the ap
               "true point (no guard hypothesis left), Select_solution_g2d decides for the true point, the median of the "
               "candidates is the true point, the azimuth rule of fix 78a600d and the slope reductions of the temporary "
               "stand-point are exact, and the loops (solve_intersection, computational_loop, both ApproximateCoordinates runs "
-              "of an execute call, repeated calls) keep the point list sound PROVIDED ApproxPoint::reset hands exact "
-              "observations on (hypothesis ResetOK - the grouping / normalisation code of reset is executed but not proved). "
+              "of an execute call, repeated calls) keep the point list sound; round 4: ApproxPoint::reset (add_all, selection, "
+              "makeBearing / makeAngle, the grouping passes and medians of ArrangeObservations, norm_rad_val) is proved to hand "
+              "exact observations on for exact clusters (C06_reset_ok; required: two directions observed at one point go to "
+              "targets that are apart and not in one direction), so C06_acord_intersection_sound has no hypothesis about the "
+              "code left, with one network evaluated end to end over R. "
               "Acord2::execute as a state machine: soundness after any number of rounds for any strategy list from per-step "
               "soundness (discharged for the four modelled strategies and the medians), flags never cleared / missing sets "
               "never grow for arbitrary data, values kept for exact data (with the AcordVector and get_medians_z exceptions "
-              "as proved witnesses), termination within |missing| rounds, and 'more observations' monotone per round; a "
-              "proved witness shows why the stop rule 'no progress in one round' does not lift this to execute. NOT proved: convergence of the iterated linearisation from "
+              "as proved witnesses), termination within |missing| rounds. Round 4, the MODELLED Acord2 as a whole (azimuth, hdiff, "
+              "zderived, vector, intersection in the constructor's order + get_medians / get_medians_z): sound on exact "
+              "observations (C06_acord2_modelled_sound, no hypothesis about a strategy); 'more observations never lose a point' "
+              "per round (C06_acord2_modelled_monotone: proved for AcordHdiff, AcordVector, AcordZderived, AcordAzimuth and the "
+              "bookkeeping - full for networks without stand-points; _partial with AcordIntersection's step monotonicity as the "
+              "one remaining hypothesis), and for execute itself: either nothing is lost or the run on the larger set stopped "
+              "strictly earlier (the stop-rule limitation; a proved witness shows a machine with sound, monotone, extensive steps "
+              "where 'no progress in one round' loses a point). Erasing a completed strategy = letting it idle is proved. NOT proved: convergence of the iterated linearisation from "
               "perturbed / omitted approximate coordinates, the strategies AcordPolar::execute, AcordTraverse, AcordWeakChecks, "
               "ApproximateCoordinates::solve_insertion (finding C06-F21: it publishes wrong points from exact data), "
-              "ApproxPoint::reset and the completeness of the whole; these are covered by the streams / the end-to-end search "
-              "on gama-local only. The scheduling model (Gama/Model/Acord2.lean) is not executed by a driver: changes of "
-              "Acord2::execute are caught by the end-to-end search.")
+              "monotonicity of AcordIntersection under added observations and the completeness of the whole; these are covered by "
+              "the streams / the end-to-end search on gama-local only. The scheduling model (Gama/Model/Acord2.lean) is executed "
+              "by drv_cogo (op acord2) next to the real Acord2::execute.")
 LEVEL_NOTE = ("Theorems are about exact real arithmetic; libm and rounding are not modelled. The end-to-end statement "
               "(adjusted = true, zero residuals, nothing removed, for every algorithm) is explored, not proved; "
               "tolerances used by the oracle: 1e-6 m when exact approximate coordinates are supplied, 1e-5 m otherwise "
@@ -76,16 +97,19 @@ LEVEL_NOTE = ("Theorems are about exact real arithmetic; libm and rounding are n
 TECHNIQUE = ("Lean 4 proof (closed-form geometry over R, list induction) + differential correspondence at Float "
              "+ end-to-end property search on gama-local with shrinking")
 TRUSTED = ["harness/c06_cogo.cpp re-declares access (#define private public) for acord2.h / acordpolar.h / acordazimuth.h / "
-           "acordhdiff.h / acordvector.h / acordzderived.h / acordintersection.h only",
+           "acordhdiff.h / acordvector.h / acordzderived.h / acordintersection.h only; the acord2 op puts observer objects "
+           "(a probe at the head, a forwarding wrapper around every strategy) into Acord2::algorithms_",
            "tools/gen/c06_acord.py (true coordinates -> exact observations of the single-step networks)",
            "tools/gen/c06_nets.py (true coordinates -> exact observations) and the regex reader of the result XML",
            "expat (the `net` stream parses generated .gkf files through GKFparser)"]
 MODELLED = ["libm sin/cos/atan2/acos/sqrt (Float primitives of the Lean runtime vs glibc)",
             "std::sort (insertion sort in the model)", "std::map / std::multimap iteration order inside Acord2",
             "AcordPolar::execute, AcordTraverse, AcordWeakChecks, ApproximateCoordinates::solve_insertion (not modelled; "
-            "searched end to end; the intersection stream counts the cases solve_insertion decides)",
-            "the round robin of Acord2::execute and Acord2::get_medians (modelled in Gama/Model/Acord2.lean, theorems only, "
-            "not executed by a driver)",
+            "searched end to end; the intersection and acord2 streams count the cases they decide)",
+            "orientations AcordPolar::points_from_SPCluster writes to stand-points (AcordIntersection's add_all computes the "
+            "same value from the same directions when it gets there; counted by the acord2 stream)",
+            "Acord2::get_medians on candidate_xy_ (modelled and proved; never exercised by the acord2 stream: only strategies "
+            "without a model produce xy candidates)",
             "Observation::norm_rad_val (fmod) as one conditional +-2pi, exact for the values the code hands to it",
             "Orientation::add_all per run of one cluster (the flat observation list is grouped by cluster)",
             "PointID::operator< (C07's model Gama/Model/PointId.lean, used by the acord driver)",
@@ -96,7 +120,8 @@ ASSUMPTIONS = ["bearing and direction values lie in [0, 2pi) (one pass of the un
                "(the buffer is indeterminate in the C++ until then)",
                "AcordHdiff / AcordVector chaining loops: fuel 2*(points+2) passes (every successful pass defines a point)",
                "Acord2::median is only called on non-empty vectors",
-               "C06_acord_intersection_sound_partial: ApproxPoint::reset hands exact observations to the calculation (ResetOK)",
+               "C06_acord2_modelled_monotone_partial / _execute_partial: AcordIntersection is monotone on the simulation relation (aiMono)",
+               "C06I.ExactCl: two directions (azimuths) observed at one point go to targets >= 1e-6 apart and not in one direction",
                "intersection stream: point ids of an observation are distinct; the static small-angle limit starts at 0.15"]
 
 SRC = """e3 ellipsoid ellipsoids gon2deg latlong outstream comb simplified statan utf8 version adj/adj adj/adj_input_data
@@ -811,6 +836,13 @@ def a2_wrong(meta, lines, tol=1e-6):
     return out
 
 
+def a2_lost(impl, model):
+    """coordinate groups the model publishes and the implementation does not"""
+    pi, pm = a2_points(impl), a2_points(model)
+    return [f"{k}.{w}" for k, tb in pm.items() if k in pi
+            for w, j in (("xy", 2), ("z", 5)) if tb[j] == "1" and pi[k][j] != "1"]
+
+
 def a2_insertion_acted(impl, model, by):
     """solve_insertion demonstrably acted: AcordIntersection::execute gave a point an xy that the model (everything of
     AcordIntersection but solve_insertion) does not publish, or publishes with another value"""
@@ -893,6 +925,14 @@ def acord2_stream(ctx, corr, exe, drv, n):
                 corr.count("acord2_compared")
             if not ok:
                 corr.disagree("acord2", c, body, model[i])
+                # completeness relative to the documented strategies (exact data): a coordinate group that the five
+                # modelled strategies determine from these observations and Acord2::execute leaves undetermined
+                lost = a2_lost(body, model[i]) if m.get("truth") else []
+                if lost and failed < 5:
+                    failed += 1
+                    corr.fail("Acord2::execute leaves undetermined what its own strategies determine from consistent "
+                              "observations: " + ", ".join(lost[:6]),
+                              {"stream": "acord2", "ops": c, "truth": m["truth"], "finding": None}, "Acord2::execute")
         if why and failed < 5:
             failed += 1
             corr.fail("Acord2::execute publishes a coordinate that is not the true one: " + why,
